@@ -65,7 +65,7 @@ contract("xdoctest.checker:check_exception",
                   ("iff", "(not S.exc_want_none(want)) and S.exc_match(exc_got, want, runstate)")],
          raises={"LIVE": "S.exc_want_none(want)",
                  "GotWantException": "(not S.exc_want_none(want)) and not S.exc_match(exc_got, want, runstate)"},
-         props=["C03"], opts={"native": False},
+         props=["C03"], gen="check_exception_inputs",
          sentinel=("never-reraises", "S.exc_want_none(want)"))
 
 # ------------------------------------------------------------------------ C02
@@ -76,5 +76,5 @@ contract("xdoctest.checker:check_got_vs_want",
          raises={"ExtractGotReprException": "S.repr_fails(want, got_stdout, got_eval, runstate)",
                  "GotWantException": "(not S.repr_fails(want, got_stdout, got_eval, runstate)) and "
                                      "not S.V(want, got_stdout, got_eval, runstate)"},
-         props=["C02", "C09"], opts={"native": False},
+         props=["C02", "C09"], gen="gvw_inputs",
          sentinel=("stdout-only", "S.match(got_stdout, want, runstate)"))
